@@ -161,6 +161,8 @@ def build(ctx):
     ctx.extra['routine_assignments_to_jobs'] = ['%s@L%d:%s' % x for x in sites]
     ctx.add(core.decided('closed-world/A2-immutable-job-columns-never-assigned', not bad and len(sites) >= 8, 'bad=%r' % bad, kind='scan'))
     ctx.add(core.decided('closed-world/no-python-statement-updates-jobs', not py_sites, repr(py_sites), kind='scan'))
+    from contracts import sqlspec as _SP
+    _SP.engine_obligations(ctx, ex)
     ctx.assume('each trigger invocation sees one consistent database (statement atomicity); the group-cancellation relation does not change within a jobs UPDATE statement (no statement writes jobs and job_groups_cancelled together)')
     ctx.assume('token abstraction: readers aggregate the counters over `token`; one shard changed by e changes the total by e (meta-lemma L1)')
     ctx.assume('MySQL evaluates select-list expressions left to right before the ON DUPLICATE KEY UPDATE clause of the same row')
